@@ -9,7 +9,7 @@ from harness import core
 from harness.gen import ir as G
 from harness.impl import docir, hops
 
-MODULE = "CddVerif.Properties.C03Iface"  # imports Properties.C03 (parametric chain theorem) and Properties.C02 (single-hop round trips)
+MODULE = "CddVerif.Properties.C02Rest"  # imports C08Iface, C03Iface;  # imports Properties.C03 (parametric chain theorem) and Properties.C02 (single-hop round trips)
 THEOREMS = ["C03.chain_preserves", "C03.chains_commute", "C03.chain_append", "C03.broken_hop_breaks_chain",
             "C03Iface.single", "C03Iface.chain_iface", "C03Iface.chains_commute_iface", "C03Iface.irC_dom"]
 FMTS = hops.CHAIN_FORMATS
@@ -211,7 +211,11 @@ def compare(chk, ir, tree, cfg="doc"):
 
 
 def run(chk: core.Check) -> int:
-    chk.lean(MODULE, THEOREMS)
+    chk.lean(MODULE, THEOREMS + ["C08Iface.hop_keeps_inD02", "C08Iface.closed_of_stable", "C08Iface.chain_iface_stable", "C08Iface.closure_fails",
+                                 "C02Rest.C03Rest_closed", "C02Rest.C03Rest_docLayerStable", "C02Rest.C03Rest_chain", "C02Rest.C03Rest_commute", "C02Rest.irE_domR"])
+    chk.trusted_base.append("closure of the region under hops: reduced to the docstring layer (C08Iface.hop_keeps_inD02 proved, residue DocLayerStable shown necessary by closure_fails) and DISCHARGED for the "
+                            "concrete ReST layer on the region DomR (C02Rest.C03Rest_closed, C03Rest_chain: every chain of class / pydantic / function / argparse hops of any length succeeds, preserves the view and "
+                            "stays in DomR; only hypothesis: pyExpr rejects code-quoted text); DomR forces ReST, emit_default_doc=False, no return entry; docstring / JSON-schema / SQLAlchemy hops are evaluated only")
     chk.trusted_base += [
         "the chain theorem is parametric: its premises (each hop keeps names/order/types/defaults and stays in the domain) are the per-format round trips of C01/C02; "
         "for class/pydantic/function/argparse the single-hop premise is proved from the C02 theorems over the emitter/parser model (C03Iface.single, chain_iface: any chain length); "
